@@ -42,6 +42,29 @@ func (e *Exec) funcEnv(fr *Frame, st *State) *Env {
 			env.vars[fv.Name()] = fr.fvals[i]
 		}
 	}
+	// loop-carried variables (phi comments) of headers dominating the current block
+	if fr.top && e.curBlock != nil {
+		for _, b := range fr.fn.Blocks {
+			if !b.Dominates(e.curBlock) {
+				continue
+			}
+			for _, in := range b.Instrs {
+				phi, ok := in.(*ssa.Phi)
+				if !ok {
+					break
+				}
+				v, bound := fr.vals[phi]
+				if !bound || phi.Comment == "" {
+					continue
+				}
+				if phi.Comment == "rangeindex" {
+					env.vars["iter"] = vInt(sx("+", v.t(), "1"))
+				} else {
+					env.vars[phi.Comment] = v
+				}
+			}
+		}
+	}
 	// source-level locals recorded by DebugRef (unique definitions only)
 	for name, v := range e.debugVars(fr) {
 		if _, ok := env.vars[name]; !ok {
@@ -207,37 +230,72 @@ func (e *Exec) checkModifies(fr *Frame, st *State, ret *ssa.Return, suffix strin
 	if !e.fc.Pure && len(e.fc.Modifies) == 0 {
 		return
 	}
-	allowed := map[string]bool{}
-	ms := &modSet{arrs: map[string]bool{}, ghosts: map[string]bool{}}
-	for _, m := range e.fc.Modifies {
-		e.modOfClause(e.fc, m, ms)
-	}
-	if ms.all {
+	if e.havockedAll {
+		e.obligeNoAssume(st, "frame:all"+suffix, "frame", e.fc.frameTags(), "false", "an uncontracted call or loop havocked the whole heap: the modifies clause cannot be checked", ret.Pos())
 		return
 	}
-	for a := range ms.arrs {
-		allowed[a] = true
+	allowedAll := map[string]bool{}
+	allowedAt := map[string][]string{}
+	oenv := e.funcEnv(fr, fr.entry)
+	oenv.st = fr.entry
+	for _, m := range e.fc.Modifies {
+		m = strings.TrimSpace(m)
+		if m == "*" {
+			return
+		}
+		if _, ok := e.P.CS.Ghosts[m]; ok {
+			continue
+		}
+		dot := strings.LastIndex(m, ".")
+		if dot < 0 {
+			continue
+		}
+		baseSrc, fname := m[:dot], m[dot+1:]
+		root := baseSrc
+		if i := strings.Index(root, "."); i >= 0 {
+			root = root[:i]
+		}
+		isType := !hasVar(oenv, root) && resolveTypeIn(e.P, oenv.pkg, baseSrc) != nil
+		located := false
+		if ex, err := parseExprSafe(baseSrc); err == nil && !isType {
+			base := e.evalExpr(oenv, ex)
+			if base.T != nil {
+				if stt, _ := structOf(base.T); stt != nil {
+					for _, an := range fieldArrays(base.T, fname) {
+						allowedAt[an] = append(allowedAt[an], base.t())
+					}
+					located = true
+				}
+			}
+		}
+		if !located {
+			names := e.P.modArrays(e.fc, m)
+			if names == nil {
+				return
+			}
+			for _, n := range names {
+				allowedAll[n] = true
+			}
+		}
 	}
-	var changed []string
 	for _, a := range sortedKeys(st.heap) {
-		if allowed[a] || isScratchArr(a) {
+		if allowedAll[a] || isScratchArr(a) {
 			continue
 		}
 		cur := st.heap[a]
 		old := e.arrTerm(fr.entry, a, e.arrSort[a])
-		if cur != old {
-			changed = append(changed, a)
+		if cur == old {
+			continue
 		}
-	}
-	// Only objects allocated before entry matter: for every array that was
-	// written, the values at pre-existing references must be unchanged.
-	for _, a := range changed {
+		// values at pre-existing references (other than the listed locations) must be unchanged
 		k := e.S.Fresh("frame_k", "Int")
-		cur := st.heap[a]
-		old := e.arrTerm(fr.entry, a, e.arrSort[a])
-		g := sImp(sAnd(sx("<=", "0", k), sx("<=", k, fr.entry.top)), sEq(sx("select", cur, k), sx("select", old, k)))
-		tags := e.fc.frameTags()
-		e.obligeNoAssume(st, "frame:"+a+suffix, "frame", tags, g, "field array "+a+" unchanged at pre-existing objects", ret.Pos())
+		hyp := []string{sx("<=", "0", k), sx("<=", k, fr.entry.top)}
+		for _, loc := range allowedAt[a] {
+			hyp = append(hyp, sNot(sEq(k, loc)))
+		}
+		g := sImp(sAnd(hyp...), sEq(sx("select", cur, k), sx("select", old, k)))
+		o := e.obligeNoAssume(st, "frame:"+a+suffix, "frame", e.fc.frameTags(), g, "field array "+a+" unchanged at pre-existing objects outside the modifies clause", ret.Pos())
+		o.Pos = posOf(e.P, ret.Pos())
 	}
 }
 
@@ -283,6 +341,18 @@ func (e *Exec) execCall(fr *Frame, st *State, in ssa.CallInstruction, c *ssa.Cal
 	var rt types.Type = resT
 	if resT.Len() == 1 {
 		rt = resT.At(0).Type()
+	}
+	if fr.top && e.fc != nil {
+		if cs, ok := e.callOrd[in.(ssa.Instruction)]; ok {
+			for _, sec := range e.fc.Calls {
+				if sec.Callee == cs.name && sec.N == cs.k {
+					cenv := e.funcEnv(fr, st)
+					for _, lm := range sec.Lemmas {
+						e.instLemma(cenv, lm, st)
+					}
+				}
+			}
+		}
 	}
 	if b, ok := c.Value.(*ssa.Builtin); ok {
 		return e.execBuiltin(fr, st, in, c, b)
@@ -398,9 +468,14 @@ func (e *Exec) inlineCall(fr *Frame, st *State, in ssa.Instruction, callee *ssa.
 // assume ensures.
 func (e *Exec) callModular(fr *Frame, st *State, in ssa.Instruction, fc *FuncContract, callee *ssa.Function, calleeName string, args []Val, rt types.Type) Val {
 	fc.Used = true
-	key := calleeName
-	e.callSeen[key]++
-	k := e.callSeen[key]
+	k := 0
+	siteName := lastSeg(calleeName)
+	if cs, ok := e.callOrd[in]; ok && fr.top {
+		k, siteName = cs.k, cs.name
+	} else {
+		e.callSeen[calleeName]++
+		k = e.callSeen[calleeName]
+	}
 	var pk *types.Package
 	if sp := e.P.SPkgs[fc.PkgPath]; sp != nil {
 		pk = sp.Pkg
@@ -422,27 +497,13 @@ func (e *Exec) callModular(fr *Frame, st *State, in ssa.Instruction, fc *FuncCon
 	if i := strings.Index(short, "."); i >= 0 {
 		short = short[i+1:]
 	}
-	// lemma instances requested by the caller's contract for this call site
-	if e.fc != nil && fr.top {
-		for _, cs := range e.fc.Calls {
-			if (cs.Callee == short || cs.Callee == calleeName || cs.Callee == lastSeg(short)) && cs.N == k {
-				cenv := e.funcEnv(fr, st)
-				for n, v := range penv.vars {
-					cenv.vars["callee_"+n] = v
-				}
-				for _, lm := range cs.Lemmas {
-					e.instLemma(cenv, lm, st)
-				}
-			}
-		}
-	}
 	for i, c := range fc.Requires {
 		g := e.evalBool(penv, c.Expr)
 		lbl := c.Label
 		if lbl == "" {
 			lbl = fmt.Sprintf("%d", i+1)
 		}
-		name := fmt.Sprintf("call:%s#%d:pre:%s", short, k, lbl)
+		name := fmt.Sprintf("call:%s#%d:pre:%s", siteName, k, lbl)
 		if !fr.top {
 			name = fr.site + "/" + name
 		}
